@@ -155,6 +155,9 @@ func c15Grid(r *fw.Rand) int { return []int{4, 32, 1 << 10, 1 << 20}[r.Intn(4)] 
 
 // 2D: point-segment, perpendicular, point-linestring, segment-segment
 func c15xy(c *fw.Ctx, idx int) {
+	if c.R.Chance(1, 64) {
+		xyRefusedCalls(c)
+	}
 	r := c.R
 	g := c15Grid(r)
 	pt := func() [2]float64 { return [2]float64{rint(r, g), rint(r, g)} }
@@ -180,11 +183,28 @@ func c15xy(c *fw.Ctx, idx int) {
 	c.SetInput(map[string]any{"dim": 2, "class": class, "line1": fmt.Sprintf("%s-%s", fw.Fs(s1.a[:]), fw.Fs(s1.b[:])), "line2": fmt.Sprintf("%s-%s", fw.Fs(s2.a[:]), fw.Fs(s2.b[:]))})
 	c.Count("xy_" + class)
 	c.Distinct(fmt.Sprintf("xy/%v/%v", s1, s2))
+	// coordinates are handed over in a few buffers the caller keeps and refills
+	// (six of them, so the arguments of one call never share one), and one case in
+	// four writes some zero ordinates as -0
+	negZero := r.Chance(1, 4)
 	co := func(p [2]float64) geom.Coord {
+		c15CoordNext = (c15CoordNext + 1) % len(c15CoordBufs)
+		b := c15CoordBufs[c15CoordNext][:]
+		n := 2
 		if r.Chance(1, 3) {
-			return geom.Coord{p[0], p[1], math.NaN()}
+			n = 3
 		}
-		return geom.Coord{p[0], p[1]}
+		b = b[:n:n]
+		b[0], b[1] = p[0], p[1]
+		if n == 3 {
+			b[2] = math.NaN()
+		}
+		for i := 0; i < 2; i++ {
+			if negZero && b[i] == 0 && r.Bool() {
+				b[i] = math.Copysign(0, -1)
+			}
+		}
+		return geom.Coord(b)
 	}
 	ea, eb, ec, ed := exact.Pt(s1.a[0], s1.a[1]), exact.Pt(s1.b[0], s1.b[1]), exact.Pt(s2.a[0], s2.a[1]), exact.Pt(s2.b[0], s2.b[1])
 	want := exact.SegSegDist2(ea, eb, ec, ed)
@@ -278,34 +298,76 @@ func c15xy(c *fw.Ctx, idx int) {
 	}
 	c.SetInput(map[string]any{"dim": 2, "point": fw.Fs(p[:]), "linestring": fw.Fs(flat), "stride": stride})
 	// the line is handed over as a window into a longer array (a prefix of a
-	// caller's coordinate buffer): what lies behind it must be left alone
-	backing := make([]float64, len(flat), len(flat)+3*stride)
+	// caller's coordinate buffer): what lies behind it must be left alone.  The
+	// buffer is one the caller keeps: every case writes its line into the same
+	// array, and within a case a vertex is moved in place and the question asked
+	// again - same address, same length, different line
+	backing := c15LineBuf[: len(flat) : len(flat)+3*stride]
 	copy(backing, flat)
 	tail := backing[len(flat):cap(backing)]
 	for i := range tail {
 		tail[i] = -7.25e300
 	}
 	window := backing[:len(flat)]
-	var got float64
-	if c.Guard("panic", func() { got = xy.DistanceFromPointToLineString(layout, co(p), window) }) {
-		return
-	}
-	for i, v := range backing[:cap(backing)] {
-		want := -7.25e300
-		if i < len(flat) {
-			want = flat[i]
+	for round := 0; round < 2; round++ {
+		if round == 1 {
+			j := r.Intn(n)
+			v := pt()
+			flat[j*stride], flat[j*stride+1] = v[0], v[1]
+			window[j*stride], window[j*stride+1] = v[0], v[1]
+			lv = append(lv, v[0], v[1])
+			best = nil
+			for i := 0; i < n; i++ {
+				ev := exact.Pt(flat[i*stride], flat[i*stride+1])
+				var d *big.Rat
+				if i == 0 {
+					d = exact.Dist2(ep, ev)
+				} else {
+					d = exact.PointSegDist2(ep, prev, ev)
+				}
+				if best == nil || d.Cmp(best) < 0 {
+					best = d
+				}
+				prev = ev
+			}
+			c.SetInput(map[string]any{"dim": 2, "point": fw.Fs(p[:]), "linestring": fw.Fs(flat), "stride": stride, "history": fmt.Sprintf("same buffer queried before with vertex %d elsewhere", j)})
+			c.Count("linestring_edited_in_place_and_asked_again")
 		}
-		if math.Float64bits(v) != math.Float64bits(want) {
-			c.Fail("input-modified", "DistanceFromPointToLineString wrote into the caller's array at offset %d (the line has %d values, the array %d)", i, len(flat), cap(backing))
+		var got float64
+		if c.Guard("panic", func() { got = xy.DistanceFromPointToLineString(layout, co(p), window) }) {
+			return
+		}
+		for i, v := range backing[:cap(backing)] {
+			want := -7.25e300
+			if i < len(flat) {
+				want = flat[i]
+			}
+			if math.Float64bits(v) != math.Float64bits(want) {
+				c.Fail("input-modified", "DistanceFromPointToLineString wrote into the caller's array at offset %d (the line has %d values, the array %d)", i, len(flat), cap(backing))
+				return
+			}
+		}
+		c.Count("linestring_passed_as_window_into_longer_array")
+		if !c15Judge(c, "xy.DistanceFromPointToLineString", got, best, c15Tol(lv...)) {
 			return
 		}
 	}
-	c.Count("linestring_passed_as_window_into_longer_array")
-	c15Judge(c, "xy.DistanceFromPointToLineString", got, best, c15Tol(lv...))
 }
+
+// the caller's coordinate buffers, refilled for every argument of every call
+var (
+	c15CoordBufs [6][4]float64
+	c15CoordNext int
+)
+
+// c15LineBuf is the coordinate buffer every point-to-linestring case writes its line into.
+var c15LineBuf [20*4 + 3*4]float64
 
 // 3D
 func c15xyz(c *fw.Ctx, idx int) {
+	if c.R.Chance(1, 64) {
+		xyRefusedCalls(c)
+	}
 	r := c.R
 	g := c15Grid(r)
 	pt := func() [3]float64 { return [3]float64{rint(r, g), rint(r, g), rint(r, g)} }
@@ -489,11 +551,26 @@ func c15xyz(c *fw.Ctx, idx int) {
 		c.Count("xyz_both_parameters_outside")
 	}
 	c.Distinct(fmt.Sprintf("xyz/%v/%v/%v/%v", a, b, cc, d))
+	negZero := r.Chance(1, 4)
 	co := func(p [3]float64) geom.Coord {
+		c15CoordNext = (c15CoordNext + 1) % len(c15CoordBufs)
+		b := c15CoordBufs[c15CoordNext][:]
+		n := 3
 		if r.Chance(1, 3) {
-			return geom.Coord{p[0], p[1], p[2], math.NaN()}
+			n = 4
 		}
-		return geom.Coord{p[0], p[1], p[2]}
+		b = b[:n:n]
+		b[0], b[1], b[2] = p[0], p[1], p[2]
+		if n == 4 {
+			b[3] = math.NaN()
+		}
+		for i := 0; i < 3; i++ {
+			if negZero && b[i] == 0 && r.Bool() {
+				b[i] = math.Copysign(0, -1)
+				c.Count("ordinates_written_as_negative_zero")
+			}
+		}
+		return geom.Coord(b)
 	}
 	type s3 struct{ a, b [3]float64 }
 	l1, l2 := s3{a, b}, s3{cc, d}
